@@ -227,6 +227,8 @@ where
     /// Retains only the elements specified by the predicate.
     ///
     /// A [HashMapEvent::Remove] change event is sent for every element that is removed.
+    /// A [HashMapEvent::Set] change event is sent for every retained element,
+    /// since the predicate has mutable access to it and may have changed it.
     ///
     /// # Panics
     /// Panics when [done](Self::done) has been called before.
@@ -237,9 +239,22 @@ where
         self.assert_not_done();
 
         self.hm.retain(|k, v| {
-            if f(k, v) {
+            let mut value = RefMut {
+                key: k.clone(),
+                value: v,
+                changed: false,
+                tx: &self.tx,
+                change: &self.change,
+                on_err: &*self.on_err,
+            };
+
+            if f(k, &mut *value) {
                 true
             } else {
+                // No need to report modification of removed element.
+                value.changed = false;
+                drop(value);
+
                 self.change.notify();
                 send_event(&self.tx, &*self.on_err, HashMapEvent::Remove(k.clone()));
                 false
